@@ -1,12 +1,200 @@
+// x05 replays the cases enumerated by spec/query/MC_ProfSeries.tla into the REAL Pyroscope pipeline of qryn:
+//
+//	abstract database (1..3 profiles: service, tag sequence, sample type list, period type, tick, bag of samples)
+//	  --concretise (hostile strings, real nanosecond instants on both sides of step and window edges)-->
+//	  github.com/google/pprof/profile.Profile  --Write-->  POST /ingest?name=svc{k=v,..}&from=..&until=..  (multipart + gzip,
+//	  binary/octet-stream raw or gzip) on the REAL writer router of e2e.World  -->  fake ClickHouse client  -->  store
+//	  (chsql with the REAL DDL and materialized views of ctrl/qryn/sql/profiles.sql)
+//	abstract request  --concretise-->  POST /querier.v1.QuerierService/<Method> (application/json in the dialect the
+//	  controller parses, or protobuf) on the REAL reader router  -->  answer decoded (protojson / proto; the merged pprof
+//	  with github.com/google/pprof/profile)  -->  compared with the DEFINITION's answer computed by TLC.
+//
+// An answer equal to the definition passes.  An answer that differs from it but equals the as-coded prediction of the
+// specification is a mismatch attributed to the quirks TLC found firing in that case; anything else is an unexplained
+// mismatch.  A statement chsql cannot run is reported as infrastructure, never as a mismatch.
+//
+//	x05 run -cases cases.ndjson -out result.json -seed S [-both N]
 package main
 
 import (
+	"bufio"
+	"encoding/json"
+	"flag"
+	"fmt"
+	"hash/fnv"
 	"os"
 	"reflect"
+	"sort"
 
 	"verif/harness/chsql"
 	"verif/harness/fakech"
 )
+
+// ---------- case format (ToJson of MC_ProfSeries!CaseRec) ----------
+
+type Smp struct {
+	Stack []string `json:"stack"` // leaf first
+	Unit  bool     `json:"unit"`
+}
+type Prof struct {
+	Svc  string      `json:"svc"`
+	Tags [][2]string `json:"tags"`
+	TL   [][2]string `json:"tl"`
+	Per  [3]string   `json:"per"`
+	Bag  []Smp       `json:"bag"`
+	T    int         `json:"t"`
+}
+type TypeID struct {
+	Name string `json:"name"`
+	St   string `json:"st"`
+	Su   string `json:"su"`
+	Pt   string `json:"pt"`
+	Pu   string `json:"pu"`
+}
+type Req struct {
+	Ep   string   `json:"ep"`
+	T    TypeID   `json:"T"`
+	Sel  []string `json:"sel"`
+	Gb   []string `json:"gb"`
+	Agg  string   `json:"agg"`
+	S    int      `json:"s"`
+	E    int      `json:"e"`
+	Name string   `json:"name"`
+	Ln   []string `json:"ln"`
+	M    bool     `json:"m"`
+}
+type Case struct {
+	Cfg   string          `json:"cfg"`
+	DB    []Prof          `json:"db"`
+	Step  int             `json:"step"`
+	Req   Req             `json:"req"`
+	Def   json.RawMessage `json:"def"`
+	Coded json.RawMessage `json:"coded"`
+	Fired []string        `json:"fired"`
+}
+
+// answers of the specification
+type Point struct {
+	T   int   `json:"t"`
+	Num int64 `json:"num"`
+	Den int64 `json:"den"`
+}
+type SeriesAns struct {
+	Err    []string `json:"err"`
+	Series []struct {
+		S struct {
+			Labels [][2]string `json:"labels"`
+			Points []Point     `json:"points"`
+		} `json:"s"`
+		N int `json:"n"`
+	} `json:"series"`
+}
+type MergeAns struct {
+	Err     []string    `json:"err"`
+	Cols    [][2]string `json:"cols"`
+	Units   string      `json:"units"`
+	Samples []struct {
+		Stack []string `json:"stack"`
+		Unit  bool     `json:"unit"`
+		Vals  []int64  `json:"vals"`
+	} `json:"samples"`
+}
+type TypesAns struct {
+	Types []TypeID `json:"types"`
+}
+type NamesAns struct {
+	Names []string `json:"names"`
+}
+type SetsAns struct {
+	Sets []struct {
+		S [][2]string `json:"s"`
+		N int         `json:"n"`
+	} `json:"sets"`
+}
+type AnalyzeAns struct {
+	Profiles []int `json:"profiles"`
+	Series   int   `json:"series"`
+}
+type StatsAns struct {
+	Ingested bool `json:"ingested"`
+	Oldest   int  `json:"oldest"`
+	Newest   int  `json:"newest"`
+}
+
+// ---------- result format ----------
+
+type Mismatch struct {
+	Signature string      `json:"signature"`
+	Kind      string      `json:"kind"` // "quirk" (equals the as-coded prediction) | "unexplained"
+	Quirk     string      `json:"quirk,omitempty"`
+	Endpoint  string      `json:"endpoint"`
+	Cfg       string      `json:"cfg"`
+	Msg       string      `json:"msg"`
+	Abstract  interface{} `json:"abstract"`
+	Case      *Case       `json:"case"` // the exported TLC case: `x05 run -cases` on a file holding this line replays it
+	Concrete  interface{} `json:"concrete"`
+	Request   interface{} `json:"request"`
+	Expected  interface{} `json:"expected"`
+	Predicted interface{} `json:"predicted_as_coded,omitempty"`
+	Observed  interface{} `json:"observed"`
+	SQL       []string    `json:"sql,omitempty"`
+}
+
+type Result struct {
+	Cases          int                    `json:"cases"`
+	Databases      int                    `json:"databases"`
+	Pushes         map[string]int         `json:"pushes"`
+	Requests       map[string]int         `json:"requests"`        // endpoint/route -> count
+	NonTrivial     int                    `json:"distinct_nontrivial"`
+	Agree          int                    `json:"answers_equal_definition"`
+	Classes        map[string]int         `json:"classes"`
+	FiredCases     map[string]int         `json:"fired_cases"`     // quirk -> exported cases in which TLC found it firing
+	FiredObserved  map[string]int         `json:"fired_observed"`  // quirk -> of those, the real code showed the as-coded answer
+	FiredSilent    map[string]int         `json:"fired_silent"`    // quirk -> of those, the real code answered the definition
+	MismatchCounts map[string]int         `json:"mismatch_counts"`
+	Mismatches     []Mismatch             `json:"mismatches"`
+	Infra          []string               `json:"infra"`
+	Sample         interface{}            `json:"sample"`
+	BothRoutes     int                    `json:"requests_on_both_routes"`
+	Aux            map[string]interface{} `json:"aux"`
+}
+
+func newResult() *Result {
+	return &Result{Pushes: map[string]int{}, Requests: map[string]int{}, Classes: map[string]int{}, FiredCases: map[string]int{},
+		FiredObserved: map[string]int{}, FiredSilent: map[string]int{}, MismatchCounts: map[string]int{}, Aux: map[string]interface{}{}}
+}
+
+func size(v interface{}) int {
+	b, _ := json.Marshal(v)
+	return len(b)
+}
+
+// report keeps, per signature, the two smallest witnesses.
+func (r *Result) report(m Mismatch) {
+	r.MismatchCounts[m.Signature]++
+	n, worst, worstSize := 0, -1, -1
+	for i := range r.Mismatches {
+		if r.Mismatches[i].Signature == m.Signature {
+			n++
+			if sz := size(r.Mismatches[i].Abstract); sz > worstSize {
+				worst, worstSize = i, sz
+			}
+		}
+	}
+	if n < 2 {
+		r.Mismatches = append(r.Mismatches, m)
+	} else if size(m.Abstract) < worstSize {
+		r.Mismatches[worst] = m
+	}
+}
+
+func (r *Result) infra(format string, a ...interface{}) {
+	if len(r.Infra) < 20 {
+		r.Infra = append(r.Infra, fmt.Sprintf(format, a...))
+	}
+}
+
+// ---------- fake ClickHouse block normalisation (writer model structs -> chsql tuples) ----------
 
 func normBlock(b *fakech.Block) {
 	for _, r := range b.Rows {
@@ -44,8 +232,89 @@ func normVal(v any) any {
 	return v
 }
 
+func hash64(s string) uint64 {
+	h := fnv.New64a()
+	h.Write([]byte(s))
+	return h.Sum64()
+}
+
 func main() {
-	if len(os.Args) > 1 && os.Args[1] == "probe" {
-		probe()
+	if len(os.Args) < 2 || os.Args[1] != "run" {
+		fmt.Fprintln(os.Stderr, "usage: x05 run -cases cases.ndjson -out result.json -seed S")
+		os.Exit(2)
+	}
+	fs := flag.NewFlagSet("run", flag.ExitOnError)
+	casesPath := fs.String("cases", "", "ndjson of MC_ProfSeries!CaseRec (sorted: the cases of one database are adjacent)")
+	outPath := fs.String("out", "", "result json")
+	seed := fs.Int64("seed", 1, "seed")
+	both := fs.Int("both", 5, "every n-th request is sent on both routes (json and protobuf) and the answers compared")
+	verbose := fs.Bool("v", false, "print every request")
+	fs.Parse(os.Args[2:])
+	if !*verbose { // the reader prints every SQL text on stdout
+		if dn, err := os.OpenFile(os.DevNull, os.O_WRONLY, 0); err == nil {
+			os.Stdout = dn
+		}
+	}
+
+	f, err := os.Open(*casesPath)
+	if err != nil {
+		fmt.Fprintln(os.Stderr, err)
+		os.Exit(2)
+	}
+	defer f.Close()
+	res := newResult()
+	x, err := newWorld(res)
+	if err != nil {
+		fmt.Fprintln(os.Stderr, "world:", err)
+		os.Exit(2)
+	}
+	defer x.close()
+	x.both, x.verbose = *both, *verbose
+
+	sc := bufio.NewScanner(f)
+	sc.Buffer(make([]byte, 1<<20), 1<<28)
+	var group []*Case
+	var groupKey string
+	flush := func() {
+		if len(group) > 0 {
+			x.runDB(group, *seed)
+			group = nil
+		}
+	}
+	distinct := map[uint64]bool{}
+	for sc.Scan() {
+		line := sc.Bytes()
+		if len(line) == 0 {
+			continue
+		}
+		c := &Case{}
+		if err := json.Unmarshal(line, c); err != nil {
+			fmt.Fprintln(os.Stderr, "bad case line:", err)
+			os.Exit(2)
+		}
+		dbj, _ := json.Marshal(c.DB)
+		k := c.Cfg + "|" + string(dbj)
+		if k != groupKey {
+			flush()
+			groupKey = k
+		}
+		group = append(group, c)
+		res.Cases++
+		if len(c.DB) > 0 {
+			rq, _ := json.Marshal(c.Req)
+			distinct[hash64(k+string(rq))] = true
+		}
+	}
+	flush()
+	if err := sc.Err(); err != nil {
+		fmt.Fprintln(os.Stderr, "reading cases:", err)
+		os.Exit(2)
+	}
+	res.NonTrivial = len(distinct)
+	sort.Slice(res.Mismatches, func(i, j int) bool { return res.Mismatches[i].Signature < res.Mismatches[j].Signature })
+	out, _ := json.MarshalIndent(res, "", " ")
+	if err := os.WriteFile(*outPath, out, 0o644); err != nil {
+		fmt.Fprintln(os.Stderr, err)
+		os.Exit(2)
 	}
 }
